@@ -80,9 +80,8 @@ def textObjectCut (b : Buf) (orig : Nat) (ty : SelType) : Buf × Clip :=
     -- INCLUSIVE: operator_range = (lo, hi + 1); `to -= 1`
     cutSelection b.text hi lo .chars true
   | .block =>
-    -- BLOCK: operator_range = (lo, hi), nothing when lo >= hi; `to -= 1`
-    if lo ≥ hi then (b, { text := [], ty := .block })
-    else cutSelection b.text (hi - 1) lo .block true
+    -- BLOCK (from a visual block selection): like INCLUSIVE, operator_range = (lo, hi + 1); `to -= 1`
+    cutSelection b.text hi lo .block true
   | .lines =>
     let from_ := lo - col { text := b.text, cur := lo }
     let to := hi + (lineAfter { text := b.text, cur := hi }).length
